@@ -520,9 +520,10 @@ class ServiceDiscoveryProtocol(SOMEIPDatagramProtocol):
 
         for entry in sdhdr.entries:
             if entry.sd_type == someip.header.SOMEIPSDEntryType.OfferService:
-                asyncio.get_event_loop().call_soon(
-                    self.discovery.handle_offer, entry, addr
-                )
+                # handled in arrival order, like reboot evidence and Subscribe entries:
+                # a deferred offer could be overtaken by the reboot evidence of a later
+                # datagram and survive the flush of everything learnt from its sender
+                self.discovery.handle_offer(entry, addr)
                 continue
 
             if entry.sd_type == someip.header.SOMEIPSDEntryType.SubscribeAck:
